@@ -196,7 +196,7 @@ PROPS = {
         design_ref="3.11",
         level_text="Seeded exploration of the parallel graph builders: generated graphs (empty, isolated nodes, self loops, parallel edges, hubs, last node with/without edges) written by the harness's "
                    "own .gr writer (v1/v2, void/uint32/uint64 data) and loaded with 1-16 threads into LC_CSR (3 variants + array constructor), LC_CSR_CSC (constructIncomingEdges), LC_Linear, LC_InlineEdge, "
-                   "LC_Morph; then findEdge, sortAllEdgesByDst, findEdgeSortedByDst, sortEdgesByEdgeData, transpose, per-thread local ranges. Oracle: exact comparison with the generator's edge list "
+                   "LC_Morph, LC_InOut over LC_CSR (two-file form with a harness-written transposed file and one-file symmetric form; in_edges, in-degree, sortAllInEdgesByDst); then findEdge, sortAllEdgesByDst, findEdgeSortedByDst, sortEdgesByEdgeData, transpose, per-thread local ranges. Oracle: exact comparison with the generator's edge list "
                    "(file order for CSR layouts, unique edge ids for layouts with free node order), views are permutations grouped correctly, local ranges partition [0,n). Added later: every mapping the graph code makes is under the happens-before check (unordered conflicting plain accesses, mixed atomic/plain races are reported whatever the result).",
         level_note="Sampling over seeds. Sequential lookups ride along as oracle reads; what the simulator adds are the interleavings of the per-thread construction, the fromFileInterleaved condvar hand-shake and the atomic slot claiming in transpose / in-edge construction.",
         **tiers(12000, 150, 300000, 1800)),
